@@ -1,5 +1,5 @@
 SPECIFICATION Spec
-CONSTANTS GCs = {"g1", "g2", "g3"}
+CONSTANTS GCs = {"g1", "g2"}
           Pins = {"p1", "p2", "p3"}
           Coop = {"p2"}
           WriterPref = TRUE
